@@ -43,6 +43,7 @@ THEOREMS = [
     "floatStyles_last",
     "C05_float",
     "C05_new_node",
+    "C05_default_node_spelling",
     "spec_reads_renderPy",
     "spec_reads_renderSci",
     "C05_candidate_text",
@@ -198,7 +199,14 @@ API_KINDS = {
     "cell_importance": ("1 0 -1 imp:n={t}{g}vol=1", 4),
     "tr_displacement": ("tr1 {t}{g}2.0 3.0", 1),
     "material_fraction": ("m1 1001.80c {t}{g}8016.80c 0.5", 2),
+    # no token at all: the quantity is not in the card that was read, its node is made when the card is written
+    "tr_rotation_new": ("tr1 {t}{g}2.0 3.0", 4),
+    "tr_rotation_more": ("tr1 {t}{g}2.0 3.0 1 0 0 0 1", 9),
+    "cell_volume_new": ("1 0 -1 imp:n={t}", 6),
+    "cell_importance_new": ("1 0 -1 vol={t}", 6),
 }
+# kinds whose quantity has no original token (the {t} of the template is another quantity, left alone)
+NO_TOKEN_KINDS = ("tr_rotation_new", "tr_rotation_more", "cell_volume_new", "cell_importance_new")
 GAPS = [" ", "  ", "      ", "\n     ", " $ note\n     ", " &\n "]
 
 
@@ -262,13 +270,32 @@ def run_impl_api(case):
                 comp = list(obj.material_components.values())[0]
                 comp.fraction = x
                 node = None
+            elif kind == "tr_rotation_new":
+                import numpy as np
+
+                obj.rotation_matrix = np.array([x, 0.5, 0.25, -0.5, 1.0, 0.0, 0.125, 0.0, 1.0])
+                node = None
+            elif kind == "tr_rotation_more":
+                import numpy as np
+
+                obj.rotation_matrix = np.array([1.0, 0.0, 0.0, 0.0, 1.0, x, 0.0, 0.5, 1.0])
+                node = None
+            elif kind == "cell_volume_new":
+                obj.volume = x
+                node = None
+            elif kind == "cell_importance_new":
+                obj.importance.neutron = x
+                node = None
         except (TypeError, ValueError) as e:  # the setter refuses the value (e.g. a negative radius): nothing written
             return dict(out, skip="setter:" + type(e).__name__)
         out["want"] = nf.num(float(want))
         state = None
         try:
-            obj.validate()
-            obj._update_values()  # what format_for_mcnp_input does first (e.g. the sign flag of a density)
+            # only where a live node is compared with the model: format_for_mcnp_input must see the object as the
+            # API call left it (a second _update_values would re-assign values to nodes the first one created)
+            if node is not None:
+                obj.validate()
+                obj._update_values()  # what format_for_mcnp_input does first (e.g. the sign flag of a density)
         except Exception:  # noqa: BLE001 - reported by format_for_mcnp_input below
             node = None
         if node is not None:
@@ -407,15 +434,16 @@ def judge_api(case, res):
         return dict(base, **{"class": "raises"}), f"{case['kind']}: writing raised {res['raised']} for card {res['card']!r}"
     want = nf.unnum(res["want"])
     tmpl, idx = API_KINDS[case["kind"]]
-    twords = tmpl.format(t="1", g=" ").replace("=", " ").split()
+    twords = tmpl.format(t=case["token"] if case["kind"] in NO_TOKEN_KINDS else "1", g=" ").replace("=", " ").split()
     # a number fused with the word after it is a word that does not read back (checked below); what happens to the
     # words *after* the number (comments, continuation lines) is the business of C01/C10, not of this property
-    if res["word"] is None or res["words"][:idx] != twords[:idx]:
+    npre = min(idx, len(twords))  # (a quantity that was not in the card is written after the words that were)
+    if res["word"] is None or [w.lower() for w in res["words"][:npre]] != [w.lower() for w in twords[:npre]]:
         return dict(base, **{"class": "fused"}), f"{case['kind']}: wrote {res['lines']!r}: the words before the number changed"
     y = nf.read_fortran(res["word"])
     if y is None:
         return dict(base, **{"class": "unreadable"}), f"{case['kind']}: wrote {res['word']!r} in {res['lines']!r}"
-    og = nf.read_fortran(case["token"])
+    og = None if case["kind"] in NO_TOKEN_KINDS else nf.read_fortran(case["token"])
     if og is not None and Fraction(want) == og:
         if res["word"] != case["token"]:
             return dict(base, **{"class": "respelled-unchanged"}), f"{case['kind']}: unchanged {case['token']!r} written {res['word']!r}"
@@ -552,7 +580,8 @@ def gen_api_case(rng, i):
     og = nf.to_float(ogf)
     prec = None
     x = nf.gen_value(rng, og, prec)
-    if kind in ("cz_radius", "c_z_radius", "cell_atom_density", "cell_mass_density", "cell_volume", "cell_importance", "material_fraction"):
+    if kind in ("cz_radius", "c_z_radius", "cell_atom_density", "cell_mass_density", "cell_volume", "cell_importance", "material_fraction",
+                "cell_volume_new", "cell_importance_new"):
         x = abs(x)
         tok = tok.lstrip("-")
         if x == 0 and ("density" in kind or "radius" in kind):
@@ -565,6 +594,11 @@ def gen_api_case(rng, i):
 
 
 API_CORPUS = [
+    # seeded/C05b: a rotation entry that the TR input did not hold is spelled from the value when the card is written
+    {"unit": "api", "kind": "tr_rotation_new", "token": "1.0", "gap": " ", "x": nf.num(0.8660254037844387)},
+    {"unit": "api", "kind": "tr_rotation_more", "token": "1.0", "gap": " ", "x": nf.num(-0.4999999999999998)},
+    {"unit": "api", "kind": "cell_volume_new", "token": "1", "gap": " ", "x": nf.num(1234.56789012345)},
+    {"unit": "api", "kind": "cell_importance_new", "token": "1", "gap": " ", "x": nf.num(0.3333333333333333)},
     {"unit": "api", "kind": "pz_location", "token": "1.5", "gap": " ", "x": nf.num(2.75)},
     {"unit": "api", "kind": "pz_location", "token": "-1.5e3", "gap": " ", "x": nf.num(2500.0)},
     {"unit": "api", "kind": "cell_atom_density", "token": "0.5", "gap": " ", "x": nf.num(0.0123456)},
